@@ -9,7 +9,7 @@
      * the checker Viz.viz_problems, applied by the harness to EVERY drawing the renderer produces, reports no
        problem exactly for the drawings that satisfy the declarative predicate Faithful (VizProofs.v).
    The renderer itself is validated per output (translation validation), not modelled. *)
-From HG Require Import Base Viz VizProofs.
+From HG Require Import Base Viz VizProofs VizMaps.
 
 (* ---------------------------------------------------------------- flattening *)
 
@@ -71,6 +71,40 @@ Theorem C20_depth_visible : forall d l n, (forall a, In a (ancestors n) -> In a 
   (vis (state_of_depth d l) n = true <-> level n <= d).
 Proof. exact vis_state_of_depth. Qed.
 Print Assumptions C20_depth_visible.
+
+(* ---------------------------------------------------------------- producer / consumer maps by visibility *)
+
+(* build_param_to_consumer_map: every listed consumer takes the parameter and is visible (unless the deepest map is asked for) *)
+Theorem C20_consumers_sound : forall fl st deepest p c,
+  In c (consumers fl st deepest p) ->
+  exists f, In f fl /\ f_id f = c /\ In p (f_ins f) /\ (deepest = true \/ vis st c = true).
+Proof. exact consumers_sound. Qed.
+Print Assumptions C20_consumers_sound.
+
+(* no listed consumer encloses another listed one: a container is dropped in favour of the consumers inside it ... *)
+Theorem C20_consumers_deepest : forall fl st deepest p c d,
+  In c (consumers fl st deepest p) -> In d (consumers fl st deepest p) -> is_desc d c = false.
+Proof. exact consumers_deepest. Qed.
+Print Assumptions C20_consumers_deepest.
+
+(* ... and nothing else is dropped *)
+Theorem C20_consumers_complete : forall fl st deepest p c,
+  In c (raw_consumers fl st deepest p) ->
+  (forall d, In d (raw_consumers fl st deepest p) -> d <> c -> is_desc d c = false) ->
+  In c (consumers fl st deepest p).
+Proof. exact consumers_complete. Qed.
+Print Assumptions C20_consumers_complete.
+
+(* build_output_to_producer_map: a (visible) producer of the name of maximal nesting depth, none if there is none *)
+Theorem C20_producer : forall st deepest o fl,
+  match producer fl st deepest o with
+  | None => forall f, In f fl -> In o (f_outs f) -> deepest = false /\ vis st (f_id f) = false
+  | Some n =>
+      (exists f, In f fl /\ f_id f = n /\ In o (f_outs f) /\ (deepest = true \/ vis st n = true)) /\
+      (forall f, In f fl -> In o (f_outs f) -> (deepest = true \/ vis st (f_id f) = true) -> level (f_id f) <= level n)
+  end.
+Proof. exact producer_spec. Qed.
+Print Assumptions C20_producer.
 
 (* ---------------------------------------------------------------- the checker *)
 
